@@ -575,7 +575,7 @@ package connect
 //@   ensures res == wrapAll(3, flat(i), next)
 
 //@ func newChain(interceptors) res
-//@   tags C16
+//@   tags C16, C19
 //@   use frp_prefix
 //@   defines flat(res) == frp(seq(res.interceptors), |res.interceptors|)
 //@   ensures fresh(res) && typeis(res, "*chain") && flat(res) == fall(seq(interceptors), 0)        // label: flattens-in-declaration-order-skipping-nil
@@ -628,7 +628,7 @@ package connect
 //@   trigger shiftOf(y, x), fall(y, k)
 
 //@ func (*interceptorsOption).chainWith(o, current) res
-//@   tags C16
+//@   tags C16, C19
 //@   requires o != nil
 //@   use fall_shift
 //@   ensures unfoldFall(seq(o.Interceptors), 0) && flat(res) == flat(current) ++ fall(seq(o.Interceptors), 0)        // label: appends-in-declaration-order
@@ -642,7 +642,7 @@ package connect
 //@   ensures flat(config.Interceptor) == old(flat(config.Interceptor)) ++ fall(seq(o.Interceptors), 0)   // label: appends-in-declaration-order
 
 //@ func (*interceptorsOption).applyToHandler(o, config)
-//@   tags C16
+//@   tags C16, C19
 //@   requires o != nil && config != nil
 //@   implements HandlerOption.applyToHandler
 //@   assigns config.Interceptor
